@@ -29,6 +29,16 @@ def norm(v):
 
 
 def snapshot(cfg):
+    """never raises: a view that cannot be read is part of the observation"""
+    try:
+        return _snapshot(cfg)
+    except core.CallTimeout:
+        raise
+    except BaseException as e:  # noqa
+        return {"__unreadable__": type(e).__name__}
+
+
+def _snapshot(cfg):
     s = {}
     s["config_block"] = bytes(cfg.config_block)
     s["settings_tuple"] = tuple((int(x.index.value), int(x.type.value), int(x.length), bytes(x.value)) for x in cfg.settings_tuple)
@@ -61,7 +71,7 @@ def do_use(u, cfg, env):
             r = d.transform_get.transform(c2.C2Data(metadata=b"\x01" * 20))
             return norm((r.uri, sorted(r.params.items()), sorted(r.headers.items()), r.body))
         if u == "recover_get":
-            r = d.transform_get.recover(env["get_request"], **env["base_kw"])
+            r = d.transform_get.recover(env["get_request"][env["which"]], **env["base_kw"])
             return norm(tuple(r))
         if u == "transform_post":
             random.seed(6)
@@ -115,12 +125,16 @@ def make_env():
              tlv.ptr(46, tlv.procinj_transform(b"\x90\x90", b"\xcc")), tlv.short(5, 10)]
     block = tlv.block(tlv.http_config(key.publickey().export_key("DER"), domains="a.example,/get,b.example,/other", get_prog=get_prog, post_prog=post_prog, recover=recover,
                                       extra=extra, host_header="Host: cdn.example\r\n"))
-    blocks = {"synthetic": block}
+    # a second shape: Cobalt Strike's defaults (recover program of a single step, no statics)
+    minimal = tlv.block(tlv.http_config(key.publickey().export_key("DER")))
+    empty_recover = tlv.block(tlv.http_config(key.publickey().export_key("DER"), recover=[]))
+    blocks = {"synthetic": block, "minimal": minimal, "empty_recover": empty_recover}
     env = {"key": key, "blocks": blocks}
-    fresh = beacon.BeaconConfig(block)
-    d = c2.C2Http(fresh, aes_key=b"A" * 16, hmac_key=b"H" * 16)
-    random.seed(5)
-    env["get_request"] = d.transform_get.transform(c2.C2Data(metadata=b"\x01" * 20), request=c2.HttpRequest(method=b"GET", uri=b"/get", params={}, headers={}, body=b""))
+    env["get_request"] = {}
+    for nm, blk in blocks.items():
+        d = c2.C2Http(beacon.BeaconConfig(blk), aes_key=b"A" * 16, hmac_key=b"H" * 16)
+        random.seed(5)
+        env["get_request"][nm] = d.transform_get.transform(c2.C2Data(metadata=b"\x01" * 20), request=c2.HttpRequest(method=b"GET", uri=b"/get", params={}, headers={}, body=b""))
     env["base_kw"] = {"base_uri": b"/get"} if "base_uri" in inspect.signature(c2.HttpDataTransform.recover).parameters else {}
     return env
 
@@ -132,6 +146,7 @@ def one(hist):
     env = _G["env"]
     out = []
     for which, block in env["blocks"].items():
+        env["which"] = which
         base = snapshot(beacon.BeaconConfig(block))
         for mode in ("A", "B"):
             cfg = beacon.BeaconConfig(block)
